@@ -276,9 +276,9 @@ macro_rules! impl_cache {
                 Q: core::hash::Hash + Eq + ?Sized,
             {
                 let (index, conflict) = self.key_to_hash.build_key(key);
-                self.store
-                    .get(&index, conflict)
-                    .and_then(|_| self.store.expiration(&index).map(|time| time.get_ttl()))
+                // read the TTL through the guard already held: locking the shard a second time
+                // deadlocks as soon as a writer queues up between the two read locks
+                self.store.get(&index, conflict).map(|v| v.ttl())
             }
 
             /// `max_cost` returns the max cost of the cache.
@@ -612,9 +612,9 @@ macro_rules! impl_async_cache {
                 Q: core::hash::Hash + Eq + ?Sized,
             {
                 let (index, conflict) = self.key_to_hash.build_key(key);
-                self.store
-                    .get(&index, conflict)
-                    .and_then(|_| self.store.expiration(&index).map(|time| time.get_ttl()))
+                // read the TTL through the guard already held: locking the shard a second time
+                // deadlocks as soon as a writer queues up between the two read locks
+                self.store.get(&index, conflict).map(|v| v.ttl())
             }
 
             /// `max_cost` returns the max cost of the cache.
